@@ -172,6 +172,22 @@ def run_shard(shard):
                     acc.counters["long_axis_exports"] += 1
                     if bad and bad[0] != "SKIP":
                         acc.violation(case, bad[0], bad[1], order=(9, li, 0, backend))
+        # sub-millisecond data: datetimes with microseconds on an axis that spans 3 ms (near the epoch, so that the float
+        # milliseconds of the library and of the oracle are exact to 1e-13); explicit and derived domain
+        t0 = _dt.datetime(1970, 1, 1, 0, 0, 1)
+        us = lambda k: t0 + _dt.timedelta(microseconds=k)
+        micro = [dc.datum((us(250), 20, "ab")), dc.datum((us(1500), 20, None)), dc.datum((us(2750), 20, "ab")), dc.datum((us(2999), 20, None))]
+        for direction in dc.DIRECTIONS:
+            for dom in ([t0, us(3000)], False):
+                for backend in ("svg", "tex"):
+                    case = {"kind": "time", "data": micro, "cfg": [direction, dom, 1, 0, True], "backend": backend}
+                    bad = judge(case, acc)
+                    acc.evals += 1
+                    acc.trans += 1
+                    acc.states += 1
+                    acc.counters["sub_millisecond_exports"] += 1
+                    if bad and bad[0] != "SKIP":
+                        acc.violation(case, bad[0], bad[1], order=(9, 99, 0, backend))
     if case:
         acc.sample(case)
     return acc
